@@ -116,8 +116,13 @@ class SymMap(_SymDictBase):
     """dict with an UNBOUNDED symbolic key set over one z3 key sort and integer values: member: K -> Bool, value: K -> Int.
     Keys are ints (sort Int) or opaque keys (Opaque terms of an uninterpreted sort, e.g. tuples of a symbolic-length row)."""
 
-    def __init__(self, member, value, name="map"):
+    def __init__(self, member, value, name="map", count=None):
         self.member, self.value, self.name = member, value, name
+        self.count = count          # number of keys (ghost-free: maintained by setitem), None when unknown
+
+    @staticmethod
+    def empty(name, key_sort):
+        return SymMap(z3.K(key_sort, z3.BoolVal(False)), z3.K(key_sort, z3.IntVal(0)), name, count=z3.IntVal(0))
 
     @staticmethod
     def fresh(name, key_sort):
@@ -152,6 +157,8 @@ class SymMap(_SymDictBase):
         from .values import is_int_like
         if not is_int_like(v):
             raise Unsupported("non-integer value %r in a symbolic map" % (v,))
+        if self.count is not None:
+            self.count = z3.simplify(self.count + z3.If(z3.Select(self.member, kk), 0, 1))
         self.member = z3.Store(self.member, kk, z3.BoolVal(True))
         self.value = z3.Store(self.value, kk, z(v))
 
@@ -167,10 +174,12 @@ class SymMap(_SymDictBase):
         raise Unsupported("iteration over a symbolic map")
 
     def size(self):
-        raise Unsupported("len of a symbolic map")
+        if self.count is None:
+            raise Unsupported("len of a symbolic map of unknown size")
+        return self.count
 
     def snapshot(self):
-        return SymMap(self.member, self.value, self.name)
+        return SymMap(self.member, self.value, self.name, self.count)
 
 
 class SymCountSet(_SymDictBase):
